@@ -131,7 +131,11 @@ def run_pi_case(case):
         return x if isinstance(x, (str, int, float, bool)) or x is None else repr(x)
     for text in case['texts']:
         try:
-            v = model.parse(text, parseinfo=True, **(case.get('settings') or {}))
+            inp = text
+            if case.get('buffer'):
+                from tatsu.input.buffer import Buffer
+                inp = Buffer(text, **(case.get('settings') or {}))        # the Buffer carries its own comment patterns
+            v = model.parse(inp, parseinfo=True, **(case.get('settings') or {}))
             out['res'].append({'k': 'ok', 'v': proj(v)})
         except Exception as e:  # noqa: BLE001
             out['res'].append({'k': 'fail', 'cls': type(e).__name__})
@@ -216,6 +220,10 @@ def part_b(ck, tier):
         cfg['parseinfo'] = True
         jobs.add(g, cfg, ctexts)
         cases.append(default_case(to_ebnf(g), ctexts, label=name + '/comments',
+                                  settings={'eol_comments': r'(?m)#.*?$', 'comments': r'\(\*.*?\*\)'}))
+        # the legacy Buffer input has its own token-skipping loop
+        jobs.add(g, cfg, ctexts)
+        cases.append(default_case(to_ebnf(g), ctexts, label=name + '/comments/buffer', buffer=True,
                                   settings={'eol_comments': r'(?m)#.*?$', 'comments': r'\(\*.*?\*\)'}))
     r, spec = run_oracle(jobs)
     ck.add_tlc(r, 'PegSemBatch(parseinfo)')
